@@ -137,3 +137,16 @@ Theorem C09_source_freshness :
   (forall h date, src_heuristic_freshness h date = heuristic_freshness h date).
 Proof. split; [exact tie_calculate_freshness|split; [exact tie_current_age|exact tie_heuristic_freshness]]. Qed.
 Print Assumptions C09_source_freshness.
+
+(* which of several matching references is the one served — the sort order and the scan of VaryHeadersMatch — is re-derived
+   from internal/varymatcher.go on this run (Generated/SrcVary.v) *)
+From HC.Generated Require Import SrcVary.
+From HC.Proofs Require Import TieVary.
+Theorem C09_source_ranking :
+  forall refs h, vary_headers_match refs h =
+     match src_scan (isort (fun a b => src_ref_cmp a b <=? 0) refs) h 0 None with
+     | None => None
+     | Some i => Some (isort (fun a b => src_ref_cmp a b <=? 0) refs, i)
+     end.
+Proof. exact tie_vary_headers_match. Qed.
+Print Assumptions C09_source_ranking.
